@@ -301,3 +301,88 @@ pub fn curate_manifold_covers(args: &[String]) -> i32 {
     println!("{} manifold covers with non-trivial finite H1 for {} symbols", all.len(), items.len());
     0
 }
+
+/// args: <outfile> [k1_cube] [k1_hex] [k2]
+pub fn curate_sg_witnesses(args: &[String]) -> i32 {
+    use crate::check::repo_path;
+    use crate::dsx::Sym;
+    use crate::exec::orbifold_invariant_string;
+    use crate::plan::{CUBE, HEX_PRISM};
+    use rust_dsymbols::covers::covers;
+    use rust_dsymbols::dsets::DSet;
+    use std::collections::{BTreeMap, BTreeSet};
+    use std::sync::Mutex;
+    let k1c: usize = args.get(1).and_then(|s| s.parse().ok()).unwrap_or(12);
+    let k1h: usize = args.get(2).and_then(|s| s.parse().ok()).unwrap_or(8);
+    let k2: usize = args.get(3).and_then(|s| s.parse().ok()).unwrap_or(6);
+    let table: BTreeSet<String> = std::fs::read_to_string(format!("{}/src/data/euclideanInvariants.data", repo_path()))
+        .expect("table")
+        .split_whitespace()
+        .filter(|s| !s.starts_with('#') && s.ends_with('/'))
+        .map(|s| s.to_string())
+        .collect();
+    // inv -> (size, base, k1, j1, k2, j2)
+    let found: Mutex<BTreeMap<String, (usize, String, usize, usize, usize, usize)>> = Mutex::new(BTreeMap::new());
+    let mut level1: Vec<(String, usize, usize, rust_dsymbols::dsyms::PartialDSym)> = vec![];
+    // maximal-symmetry literals: Pm-3m (cube), P6/mmm (<167.3>), and the other cubic
+    // literals of the corpus, whose covers reach glide/screw variants at lower index
+    let others: [(&str, usize); 5] = [
+        (HEX_PRISM, k1h),
+        ("<1.1:3 3:1 2 3,1 3,2 3,1 2 3:3 4,3,4 6>", k1h),
+        ("<1.1:2 3:1 2,1 2,1 2,2:3 3,3 4,4>", k1h),
+        ("<1.1:6 3:2 4 6,1 2 3 5 6,3 4 5 6,2 3 4 5 6:6 4,2 3 3,8 4 4>", k1h.min(6)),
+        ("<1.1:4 3:2 4,1 2 3 4,3 4,2 4:4 6,2 6,4>", k1h.min(6)),
+    ];
+    for (base, k1) in std::iter::once((CUBE, k1c)).chain(others.iter().cloned()) {
+        let s = Sym::parse(base).unwrap().to_partial();
+        for (j1, c1) in covers(&s, k1).into_iter().enumerate() {
+            level1.push((base.to_string(), k1, j1, c1));
+        }
+    }
+    println!("{} first-level covers; table has {} entries", level1.len(), table.len());
+    let next = std::sync::atomic::AtomicUsize::new(0);
+    std::thread::scope(|sc| {
+        for _ in 0..16 {
+            sc.spawn(|| loop {
+                let i = next.fetch_add(1, std::sync::atomic::Ordering::SeqCst);
+                if i >= level1.len() {
+                    break;
+                }
+                let (base, k1, j1, c1) = &level1[i];
+                let r = std::panic::catch_unwind(std::panic::AssertUnwindSafe(|| {
+                    let mut out = vec![];
+                    for (j2, c2) in covers(c1, k2).into_iter().enumerate() {
+                        let inv = orbifold_invariant_string(&c2);
+                        out.push((inv, c2.size(), j2));
+                    }
+                    out
+                }));
+                if let Ok(list) = r {
+                    let mut f = found.lock().unwrap();
+                    for (inv, size, j2) in list {
+                        if !table.contains(&inv) {
+                            println!("NOT IN TABLE: {} (cover {} of cover {} of {})", inv, j2, j1, base);
+                            continue;
+                        }
+                        let better = match f.get(&inv) {
+                            None => true,
+                            Some(old) => (size, *j1, j2) < (old.0, old.3, old.5),
+                        };
+                        if better {
+                            f.insert(inv, (size, base.clone(), *k1, *j1, k2, j2));
+                        }
+                    }
+                }
+            });
+        }
+    });
+    let f = found.into_inner().unwrap();
+    let mut out = String::new();
+    for (inv, (size, base, k1, j1, k2, j2)) in f.iter() {
+        out.push_str(&format!("{}\t{} {} {} {}\t{}\t{}\n", base, k1, j1, k2, j2, size, inv));
+    }
+    std::fs::write(&args[0], out).expect("write");
+    let missing: Vec<&String> = table.iter().filter(|t| !f.contains_key(*t)).collect();
+    println!("witnesses for {} of {} table entries; missing: {:?}", f.len(), table.len(), missing);
+    0
+}
